@@ -176,6 +176,64 @@ func c16Run(c *Ctx) {
 		return
 	}
 	gen := []string{"help", "help", "man"}[c.K%3]
+	histLabel := ""
+	if inHistTail(c, 15000, 500000) && d.resolveLive(b) == "" {
+		// documents were generated once already; then the program hides one command and shows another (or flips the
+		// hidden mark of an option): the next document follows the model as it is now
+		if pi := safely(func() {
+			var sink bytes.Buffer
+			b.P.WriteHelp(&sink)
+			b.P.WriteManPage(&sink)
+			b.P.ParseArgs([]string{"zz-no-such-command-or-word"})
+		}); pi != nil {
+			c.Violate("panic:first-use", "first help/man generation panicked: %s", pi.Value)
+			return
+		}
+		var parents []*Cmd
+		for _, cm := range d.Cmds {
+			nv, nh := 0, 0
+			for _, s := range cm.Subs {
+				if s.Hidden {
+					nh++
+				} else {
+					nv++
+				}
+			}
+			if nv > 0 && nh > 0 {
+				parents = append(parents, cm)
+			}
+		}
+		if len(parents) > 0 && r.Chance(2, 3) {
+			pc := parents[r.Intn(len(parents))]
+			var vis, hid []*Cmd
+			for _, s := range pc.Subs {
+				if s.Hidden {
+					hid = append(hid, s)
+				} else {
+					vis = append(vis, s)
+				}
+			}
+			v, h := vis[r.Intn(len(vis))], hid[r.Intn(len(hid))]
+			if v.FC != nil && h.FC != nil {
+				v.Hidden, h.Hidden = true, false
+				v.FC.Hidden, h.FC.Hidden = true, false
+				histLabel = "hidden-swap-of-commands"
+			}
+		} else {
+			var os []*Opt
+			for _, o := range d.Opts {
+				if o.FO != nil && !o.Prog {
+					os = append(os, o)
+				}
+			}
+			if len(os) > 0 {
+				o := os[r.Intn(len(os))]
+				o.Hidden = !o.Hidden
+				o.FO.Hidden = o.Hidden
+				histLabel = "hidden-flip-of-option"
+			}
+		}
+	}
 	// an active chain of visible commands
 	var chain []*Cmd
 	cur := d.Root
@@ -205,7 +263,7 @@ func c16Run(c *Ctx) {
 		})
 		out = buf.String()
 	} else {
-		routeA = d.Options&flags.HelpFlag != 0 && r.Bool()
+		routeA = d.Options&flags.HelpFlag != 0 && r.Bool() && histLabel == ""
 		if d.Root.Pos != nil && len(chain) > 0 {
 			routeA = false
 		}
@@ -265,7 +323,7 @@ func c16Run(c *Ctx) {
 		return false
 	}
 	for _, s := range secrets {
-		if strings.Contains(out, s.tok) {
+		if containsToken(out, s.tok) { // (as a token: another option's random number may contain the digits)
 			c.Violate("leak:"+gen+":masked-default", "%s (%q) appears in the %s output", s.what, s.tok, gen)
 			return
 		}
@@ -381,7 +439,11 @@ func c16Run(c *Ctx) {
 				return
 			}
 		}
-		c.Held("man", fmt.Sprintf("rows=%d cmds=%d", minInt(nrows, 30), minInt(len(d.Cmds), 20)))
+		cell := "man"
+		if histLabel != "" {
+			cell += "/after-" + histLabel
+		}
+		c.Held(cell, fmt.Sprintf("rows=%d cmds=%d", minInt(nrows, 30), minInt(len(d.Cmds), 20)))
 		return
 	}
 	lines := strings.Split(out, "\n")
@@ -524,7 +586,11 @@ func c16Run(c *Ctx) {
 	if nrows == 0 && nvis == 0 {
 		return
 	}
-	c.Held(fmt.Sprintf("help/chain%d/route%v", len(chain), routeA), fmt.Sprintf("rows=%d subs=%d", minInt(nrows, 30), nvis))
+	hcell := fmt.Sprintf("help/chain%d/route%v", len(chain), routeA)
+	if histLabel != "" {
+		hcell += "/after-" + histLabel
+	}
+	c.Held(hcell, fmt.Sprintf("rows=%d subs=%d", minInt(nrows, 30), nvis))
 }
 
 func init() {
@@ -534,11 +600,11 @@ func init() {
 		Cases: func(tier string) int64 {
 			switch tier {
 			case "thorough":
-				return 500000
+				return 500000 + 40000 // + history cases
 			case "race":
 				return 0
 			}
-			return 15000
+			return 15000 + 1500 // + history cases
 		},
 		Run:           c16Run,
 		MinNontrivial: 300,
